@@ -289,6 +289,10 @@ def tlc_bfs_scripts(ctx, cfg, timeout=600):
     return out, res
 
 
+def c_size(t):
+    return size(t)
+
+
 def prog_str(p):
     return "".join(chr(c) for c in p)
 
@@ -313,14 +317,19 @@ def run(ctx):
         "exhaustive only on the model (trees <= 4-5 elements, height <= 3, names {a, ab, b}); the code is covered on the executed documents",
     ]
     # 1. design level: transcribed algorithm == property on all small trees x programs
-    acts = ["XmlMC!AddNode"]
+    # (coverage instrumentation slows these recursion-heavy evaluations ~10x; the vacuity guard is the exact number of
+    # (tree, program) states instead: Next has the single action AddNode)
+    def mc(cfg, want, timeout=900, xmx="8g"):
+        r = ctx.mc(SPEC_DIR, "XmlMC", cfg, coverage=False, timeout=timeout, xmx=xmx)
+        if want is not None and r.distinct != want:
+            raise CheckError("MODEL-BROKEN: XmlMC %s explored %d (tree, program) states, expected %d" % (cfg, r.distinct, want))
     if thorough:
-        ctx.mc(SPEC_DIR, "XmlMC", "MC_thorough.cfg", required_actions=acts, timeout=3000, xmx="12g")
-        ctx.mc(SPEC_DIR, "XmlMC", "MC_deco_thorough.cfg", required_actions=acts, timeout=3000, xmx="12g")
+        mc("MC_thorough.cfg", None, 3000, "12g")
+        mc("MC_deco_thorough.cfg", 754389, 3000, "12g")
     else:
-        ctx.mc(SPEC_DIR, "XmlMC", "MC.cfg", required_actions=acts, timeout=900, xmx="8g")
-        ctx.mc(SPEC_DIR, "XmlMC", "MC_deco.cfg", required_actions=acts, timeout=900, xmx="8g")
-    ctx.mc(SPEC_DIR, "XmlMC", "MC_limits.cfg", required_actions=acts, timeout=900, xmx="8g")
+        mc("MC.cfg", 137181)
+        mc("MC_deco.cfg", 5892)
+    mc("MC_limits.cfg", 5892)
     # self-test of the comparison: the closing-tag search of the pinned tree (prefix names, F6) must be told apart
     pin = tlc.run_tlc(SPEC_DIR, "XmlMC", "MC_pinned.cfg", ctx.outdir, workers=4, timeout=300, deadlock=False, xmx="4g")
     ctx.extra["model_level_F6"] = {"cfg": "MC_pinned.cfg (FixF6 = FALSE)", "invariant_violated": pin.violated,
@@ -332,9 +341,14 @@ def run(ctx):
     rng = random.Random(ctx.seed)
     docs = []
     bfs, _ = tlc_bfs_scripts(ctx, "Gen_bfs.cfg")
+    ctx.extra["tlc_enumerated_small"] = len(bfs)
+    small = [s for s in bfs if c_size(s["tree"]) <= 3]
+    four = [s for s in bfs if c_size(s["tree"]) > 3]
+    rng.shuffle(four)
+    bfs = small + four[:2500 if not thorough else len(four)]
+    ctx.extra["tlc_enumerated_executed"] = len(bfs)
     for s in bfs:
         docs.append(Doc(s["tree"], prog_str(s["prog"]), fam="tlc-bfs"))
-    ctx.extra["tlc_enumerated_small"] = len(bfs)
     sim, _ = tlc.gen_scripts(SPEC_DIR, "XmlMC", "Gen.cfg", ctx.outdir, num=40 if not thorough else 400, depth=6,
                              seed=ctx.seed, workers=4)
     # TLC evaluates Emit on every successor it generates, not only on the one the walk follows: sample
@@ -345,7 +359,7 @@ def run(ctx):
         docs.append(Doc(s["tree"], prog_str(s["prog"]), md=(0, 0, 2, 3)[i % 4], p=PRES[i % len(PRES)], fam="tlc-sim"))
     ctx.extra["tlc_simulated"] = len(sim)
     fams = fam_siblings(rng) + fam_depth(rng) + fam_names(rng) + fam_attrs(rng) + fam_text(rng)
-    fams += fam_random(rng, 900 if not thorough else 25000)
+    fams += fam_random(rng, 1500 if not thorough else 25000)
     docs += fams
     cut_base = [d for d in fams if d.fam in ("siblings", "random")]
     rng.shuffle(cut_base)
